@@ -259,7 +259,9 @@ def plan_phases(plan: dict) -> list[dict]:
     phases = plan.get("phases") or [{"name": "main", "n_cases": plan["n_cases"],
                                      "cases_per_job": plan["cases_per_job"],
                                      "params": plan.get("params", {})}]
-    return [dict(ph, offset=k * 10 ** 6) for k, ph in enumerate(phases)]
+    phases = [dict(ph, offset=k * 10 ** 6) for k, ph in enumerate(phases)]
+    only = os.environ.get("VERIF_ONLY_PHASE")     # development aid: one phase of a check
+    return [ph for ph in phases if ph["name"] == only] or phases if only else phases
 
 
 def phase_of(phases: list[dict], index: int) -> dict:
